@@ -358,3 +358,8 @@ package martian
 //@ ensures old(p.ProxyURL) == nil || (!routeErr() && routeSel() == nil) ==> dialed() == old(req.URL.Host) && hopURL() == old(hopURL())
 //@ ensures old(p.ProxyURL) != nil && !routeErr() && routeSel() != nil && (routeSel().Scheme == "http" || routeSel().Scheme == "https" || routeSel().Scheme == "socks5") ==> hopURL() == routeSel() && dialed() == old(dialed())
 //@ ensures old(p.ProxyURL) != nil && !routeErr() && routeSel() != nil && routeSel().Scheme != "http" && routeSel().Scheme != "https" && routeSel().Scheme != "socks5" ==> result0 == nil && result1 == nil && result2 != nil && dialed() == old(dialed()) && hopURL() == old(hopURL())
+
+// The package initialiser establishes the global invariants of this file.
+//@ func init
+//@ property C13 C12 C02
+//@ modifies **
